@@ -21,6 +21,7 @@ EXTENDS Integers, Sequences, FiniteSets, TLC
 
 CONSTANTS Kinds,           \* function caller -> kind in {"open","meta","closeUp","read","closeDown","openDown"}
           LeakRLock, CloseWaitWakes, MuHeldDuringWait, ResultChBuffered,
+          Hooks,           \* TRUE: the flush loop cuts a chunk and the user's send hook runs (only the configurations about Upstream.mu need it)
           HookUnderLock,   \* FALSE: as coded, user hooks are queued to the stream's event dispatcher and run with no library lock held;
                            \* TRUE: the send hook is called from the flush critical section (Upstream.mu held)
           MaxMeta          \* number of DownstreamMetadata messages the adversary sends
@@ -108,7 +109,7 @@ HandOver == /\ rl = "handing" /\ (waiter = "waiting" \/ ResultChBuffered)
             /\ rl' = "done" /\ umu' = "none" /\ waiter' = IF waiter = "waiting" THEN "served" ELSE waiter
             /\ UNCHANGED <<pc, expired, overrun, mu, rlocks, dsw, resp, nmeta, acked, hook>>
 \* the flush loop cuts a chunk under Upstream.mu and announces it to the user's send hook
-FlushCut == /\ hook = "none" /\ umu = "none"
+FlushCut == /\ Hooks /\ hook = "none" /\ umu = "none"
             /\ IF HookUnderLock THEN umu' = "flush" /\ hook' = "running" ELSE umu' = umu /\ hook' = "queued"
             /\ UNCHANGED <<pc, expired, overrun, mu, rlocks, dsw, resp, nmeta, acked, waiter, rl>>
 \* the stream's event dispatcher calls the queued hook (no library lock held)
